@@ -12,11 +12,14 @@ import GdVerif.Run.Quake
 import GdVerif.Run.GenQuake
 import GdVerif.Run.Unreal2
 import GdVerif.Run.GenUnreal2
+import GdVerif.Run.Minecraft
+import GdVerif.Run.GenMinecraft
 /-
   gdmodel: the model behind a line protocol.
     gdmodel run        : reads `<id> <entry> <args…>` lines on stdin, prints `<id> <outcome>`
 -/
 open Gd Gd.Run
+
 
 
 def allEntries : List (String × (List String → String)) := List.flatten [
@@ -30,7 +33,8 @@ def allEntries : List (String × (List String → String)) := List.flatten [
   realEntries,
   cliEntries,
   quakeEntries,
-  unreal2Entries
+  unreal2Entries,
+  McDrv.minecraftEntries
   ]
 
 def runLine (line : String) : String :=
@@ -62,6 +66,7 @@ def main (args : List String) : IO UInt32 := do
         | "quake" => genQuake seed n
         | "unreal2" => genUnreal2 seed n
         | "u2str" => genUnreal2Strings seed n
+        | "mcjava" | "mcbedrock" | "mclegacy" | "mcauto" => McGen.genMinecraft suite seed n
         | _ => []
       for l in lines do IO.println l
       return 0
